@@ -3,7 +3,7 @@ observe the outcome."""
 import warnings
 
 from . import gen, refmodel as rm
-from .engine import watch, ScenarioTimeout, HarnessError
+from .engine import watch, ScenarioTimeout, HarnessError, note_timeout
 from Bio.Seq import Seq
 from moclo import errors
 from moclo.record import CircularRecord
@@ -117,6 +117,9 @@ def well_formed(scn):
     return True, ""
 
 
+_pending_timeout = [False]
+
+
 class Outcome(object):
     __slots__ = ("kind", "seq", "record", "exc", "exc_name", "warnings", "attrs")
 
@@ -138,6 +141,9 @@ class Outcome(object):
 def run_assemble(vector, modules, **kw):
     """Call vector.assemble(*modules) on live entity objects; never lets an exception escape."""
     o = Outcome()
+    if _pending_timeout[0]:
+        _pending_timeout[0] = False
+        note_timeout()
     try:
         with warnings.catch_warnings(record=True) as caught:
             warnings.simplefilter("always")
@@ -155,6 +161,7 @@ def run_assemble(vector, modules, **kw):
     except ScenarioTimeout:
         o.kind = "timeout"
         o.exc_name = "ScenarioTimeout"
+        _pending_timeout[0] = True
     except errors.MocloError as e:
         o.kind = "moclo-error"
         o.exc = e
